@@ -28,6 +28,7 @@ more hermetic.
 import dataclasses
 from typing import Any
 
+from fiddle._src import arg_factory
 from fiddle._src import config
 from fiddle._src import daglish
 
@@ -68,6 +69,10 @@ def materialize_defaults(value: Any) -> None:
         ):
           # The signature's default is a sentinel standing for the factory,
           # not a value: leave it to the dataclass to call the factory.
+          continue
+        if isinstance(arg.default, arg_factory.ArgFactory):
+          # Likewise for `arg_factory.default_factory(...)` defaults of
+          # functions decorated with `@arg_factory.supply_defaults`.
           continue
         if arg.kind == arg.POSITIONAL_ONLY:
           # Positional-only arguments are stored (and set) by index.
